@@ -6,6 +6,7 @@
     → replies  rid:conn:keys;...  |  snapshots  rid:conn:seq:flags:ser:anns:corr;...
 -/
 import PyroModel.Context
+import PyroModel.Gen.C12Src
 import Driver.Util
 
 open Pyro.Context Driver
@@ -55,7 +56,35 @@ def dedupSorted : List Nat → List Nat
 def canonKeys (ks : List (Nat × Nat)) : String :=
   natListToString (dedupSorted ((ks.map (·.1)).foldr insertSorted []))
 
+def b01 (s : String) : Bool := s == "1"
+
+/-- wire <n> {<rel> <hsOk> <hsAnns> <oneway> <raw> <intr> (N | P <delta> <typeOk> <serOk> <anns> <stream> <noid> <exc> <exccomm>)}* -/
+def parseWire : Nat → List String → Option (List WCall)
+  | 0, [] => some []
+  | k + 1, rel :: hs :: ha :: ow :: raw :: intr :: "N" :: more => do
+    let ha ← parseNatList ha
+    let tl ← parseWire k more
+    some (⟨b01 rel, b01 hs, ha, b01 ow, b01 raw, none, b01 intr⟩ :: tl)
+  | k + 1, rel :: hs :: ha :: ow :: raw :: intr :: "P" :: d :: t :: se :: an :: st :: ni :: ex :: ec :: more => do
+    let ha ← parseNatList ha
+    let d ← d.toNat?
+    let an ← parseNatList an
+    let tl ← parseWire k more
+    some (⟨b01 rel, b01 hs, ha, b01 ow, b01 raw, some ⟨d, b01 t, b01 se, an, b01 st, b01 ni, b01 ex, b01 ec⟩, b01 intr⟩ :: tl)
+  | _, _ => none
+
+def showC (s : CState) : String := s!"{if s.connected then 1 else 0}:{natListToString s.ra}"
+
 def step' : List String → String
+  | "wire" :: n :: rest =>
+    match n.toNat?.bind (fun k => parseWire k rest) with
+    | some cs =>
+      -- the proxy is bound (connected, metadata known) before the first call
+      let m := wrun { connected := true } cs
+      let src := Pyro.Gen.C12Src.wrunSrc { connected := true } cs
+      if m == src then ";".intercalate (m.map showC)
+      else "SRC-DIFF model=" ++ ";".intercalate (m.map showC) ++ " source=" ++ ";".intercalate (src.map showC)
+    | none => "bad-op"
   | "hist" :: n :: rest =>
     match n.toNat?.bind (fun k => parseEvs k rest) with
     | some evs =>
